@@ -1,3 +1,5 @@
+from string import ascii_letters
+
 from ural.data import ISO_3166_1_COUNTRIES_ALPHA_2
 from ural.normalize_url import normalize_url, normalize_hostname
 from ural.utils import SplitResult, urlunsplit, urlsplit, unsplit_netloc
@@ -15,19 +17,25 @@ def lang_query_item_filter(key, _):
     return key not in LANG_QUERY_KEYS
 
 
+def is_country_code(code):
+    # NOTE: only ascii letters spell a code: str.upper also maps "\u0131"
+    # (dotless i) to "I" and "\u017f" (long s) to "S"
+    return (
+        all(c in ascii_letters for c in code)
+        and code.upper() in ISO_3166_1_COUNTRIES_ALPHA_2
+    )
+
+
 def strip_lang_subdomains_from_hostname(hostname):
     if hostname.count(".") > 1:
         subdomain, remaining_hostname = hostname.split(".", 1)
         if len(subdomain) == 5 and "-" in subdomain:
             lang, country = subdomain.split("-", 1)
             if len(lang) == 2 and len(country) == 2:
-                if (
-                    lang.upper() in ISO_3166_1_COUNTRIES_ALPHA_2
-                    and country.upper() in ISO_3166_1_COUNTRIES_ALPHA_2
-                ):
+                if is_country_code(lang) and is_country_code(country):
                     hostname = remaining_hostname
         elif len(subdomain) == 2:
-            if subdomain.upper() in ISO_3166_1_COUNTRIES_ALPHA_2:
+            if is_country_code(subdomain):
                 hostname = remaining_hostname
 
     return hostname
